@@ -991,6 +991,21 @@ fn main() {
     }
     let big = gen_bytes(&mut r, 65537);
     emit(format!("K m 1 0 V{}", hex_bytes(&big)), &mut out);
+    // over-long components at seeded places of permuted composite keys (always present, unlike the
+    // 1/4000 giants of the random stream)
+    for j in 0..8usize {
+        let k = 2 + j % 4;
+        let mut wire: Vec<u16> = (0..k as u16).collect();
+        r.shuffle(&mut wire);
+        let at = r.below(k as u64) as usize;
+        let vals: Vec<Val> = (0..k)
+            .map(|i| {
+                let len = if i == at { 65536 + r.below(300) as usize } else { r.range(0, 30) as usize };
+                Val::Value(gen_bytes(&mut r, len))
+            })
+            .collect();
+        emit(format!("K {} {:x} {} {}", if j % 3 == 0 { "c" } else { "m" }, k, hex_list(&wire), values_to_string(&vals)), &mut out);
+    }
 
     // partitioner selection: the class names a table can carry
     for name in ["org.apache.cassandra.dht.Murmur3Partitioner", "com.scylladb.dht.CDCPartitioner",
